@@ -47,7 +47,7 @@ func (dec *Decoder) ReadBytes() []byte {
 
 func (dec *Decoder) readUint8Slice(et reflect.Type) []byte {
 	count := dec.ReadCount()
-	if n := dec.prealloc(count); n < count {
+	if n := dec.preallocCount(count); n < count {
 		// the count could not be checked against the input: grow as elements arrive
 		slice := make([]byte, 0, n)
 		dec.AddReference(nil)
